@@ -112,6 +112,9 @@ func runC12(c *an.Ctx) {
 	}
 
 	checkLookupAfterSubscription(c, "C12.a", gbh, lookup, wait)
+	checkElapsedOnlyWhenPublished(c, "C12.b", wait)
+	checkSharedSignalReleasedLast(c, "C12.b")
+	checkShortcutHeightMatches(c, "C12.a", lookup)
 
 	// --- C12.b Wait: one critical section for re-check + registration
 	// The critical section may live in Wait itself or in a helper method of heightSub that Wait
